@@ -134,7 +134,7 @@ def gen(tier, rng):
             elif kind == "d":
                 muts.append([k, "d", a, l, rng.choice(rows)[0]])
             else:
-                muts.append([k, "i", a, l, rows[-1][0] + rng.randint(1, 2), rng.randint(300, 900)])
+                muts.append([k, "i", a, l, rows[-1][0] + rng.randint(1, 2), rng.randint(480, 1200)])
         # two inserts of the same row would be two different operations with one seq_num: keep one
         seen, keep = set(), []
         for m in muts:
